@@ -2404,7 +2404,8 @@ impl SubRule {
     }
 
     fn input_match_ipa(&self, captures: &mut Vec<MatchElement>, s: &Segment, mods: &Option<Modifiers>, word: &Word, pos: &mut SegPos, err_pos: Position) -> Result<bool, RuleRuntimeError> {
-        let seg = word.get_seg_at(*pos).unwrap();
+        // after an ellipsis the cursor can be past the end of the word
+        let Some(seg) = word.get_seg_at(*pos) else { return Ok(false) };
 
         if let Some(m) = mods {
             if self.match_ipa_with_modifiers(s, m, word, pos, err_pos)? {
@@ -2498,6 +2499,8 @@ impl SubRule {
     }
 
     fn input_match_matrix(&self, captures: &mut Vec<MatchElement>, mods: &Modifiers, var: &Option<usize>, word: &Word, pos: &mut SegPos, err_pos: Position) -> Result<bool, RuleRuntimeError> { 
+        // after an ellipsis the cursor can be past the end of the word
+        if word.out_of_bounds(*pos) { return Ok(false) }
         if self.match_modifiers(mods, word, pos, err_pos)? {
             if let Some(v) = var {
                 self.variables.borrow_mut().insert(*v, VarKind::Segment(word.get_seg_at(*pos).unwrap()));
